@@ -8,6 +8,12 @@ import DadiVerif.Model.Extrap
    c07.full <m> <y;y;...> <xs>    -> ok v,v,... f,f,... n,n,...      (with fallback for a whole number m of decades;
                                                                       f = fell back, n = ratio within 1e-6 of a threshold)
    c07.argmin <xs>                -> ok i
+   c07.xsel <explicit> <attrs> <k>            -> ok x,x,...            (the x list the pipeline uses for k grids: generated `xSelect`
+                                                                       + how it is consumed; explicit = `none` or a list; attrs = one
+                                                                       token per result: `m` no attribute, `n` None, or a rational)
+   c07.xdispatch <explicit> <attrs> <y;y;...> -> as c07.dispatch, x values chosen by the model
+   c07.xfull <m> <explicit> <attrs> <y;y;...> -> as c07.full, x values chosen by the model
+   c07.binding                                -> ok p=v;p=v;...        (make_extrap_log_func -> make_extrap_func argument binding)
    Errors: `err NameError:<fn>` `err ValueError:count` `err ValueError:unpack` `err nondistinct` `err shape`. -/
 namespace DadiVerif.Driver.Extrap
 open DadiVerif DadiVerif.Proto DadiVerif.Extrap
@@ -22,13 +28,20 @@ def showBools (l : List Bool) : String :=
     ZeroDivisionError for Python floats); the model refuses instead of using Lean's `x/0 = 0`. -/
 def needsDistinct (k : Nat) (xs : List Rat) : Bool := k ≥ 2 && !(distinct xs)
 
+def parseExplicit (s : String) : Option (Option (List Rat)) :=
+  if s = "none" then some none else (parseList s).map some
+
+def parseAttrs (s : String) : Option (List (Gen.Extrap.XAttr Rat)) :=
+  if s = "-" then some [] else (s.splitOn ",").mapM fun t =>
+    if t = "m" then some .missing else if t = "n" then some .pyNone else (parseRat t).map .val
+
 def handle (toks : List String) : Option String :=
   match toks with
   | ["c07.table"] =>
       some ("ok " ++ ";".intercalate (Gen.Extrap.formulaTable.map fun (k, nm, p) => s!"{k}:{nm}:{p}")
             ++ " " ++ ",".intercalate (Gen.Extrap.identityCounts.map toString))
   | ["c07.cfg"] =>
-      some s!"ok {Gen.Extrap.fallbackMinLen} {Gen.Extrap.defaultFailMag} {Gen.Extrap.resultsPerGridShapeOk} {Gen.Extrap.fallbackShapeOk} {Gen.Extrap.logWrapShapeOk}"
+      some s!"ok {Gen.Extrap.fallbackMinLen} {Gen.Extrap.defaultFailMag} {Gen.Extrap.resultsPerGridShapeOk} {Gen.Extrap.fallbackShapeOk} {Gen.Extrap.logWrapShapeOk} {Gen.Extrap.xSourceShapeOk}"
   | ["c07.formula", ys, xs] => do
       let ys ← parseList ys; let xs ← parseList xs
       if needsDistinct ys.length xs then some "err nondistinct"
@@ -48,6 +61,32 @@ def handle (toks : List String) : Option String :=
       else match extrapArray m yss xs with
         | .ok rs => some ("ok " ++ showList (rs.map (·.1)) ++ " " ++ showBools (rs.map (·.2.1)) ++ " " ++ showBools (rs.map (·.2.2)))
         | .error e => some ("err " ++ e)
+  | ["c07.xsel", ex, ats, k] => do
+      let ex ← parseExplicit ex; let ats ← parseAttrs ats; let k ← k.toNat?
+      match xsFor ex ats k with
+      | .ok xs => some ("ok " ++ showList xs)
+      | .error e => some ("err " ++ e)
+  | ["c07.xdispatch", ex, ats, yss] => do
+      let ex ← parseExplicit ex; let ats ← parseAttrs ats; let yss ← parseRows yss
+      match xsFor ex ats yss.length with
+      | .error e => some ("err " ++ e)
+      | .ok xs =>
+        if needsDistinct yss.length xs then some "err nondistinct"
+        else match dispatchArray yss xs with
+          | .ok vs => some ("ok " ++ showList vs)
+          | .error e => some ("err " ++ e)
+  | ["c07.xfull", m, ex, ats, yss] => do
+      let m ← m.toNat?
+      let ex ← parseExplicit ex; let ats ← parseAttrs ats; let yss ← parseRows yss
+      match xsFor ex ats yss.length with
+      | .error e => some ("err " ++ e)
+      | .ok xs =>
+        if needsDistinct yss.length xs then some "err nondistinct"
+        else match extrapArray m yss xs with
+          | .ok rs => some ("ok " ++ showList (rs.map (·.1)) ++ " " ++ showBools (rs.map (·.2.1)) ++ " " ++ showBools (rs.map (·.2.2)))
+          | .error e => some ("err " ++ e)
+  | ["c07.binding"] =>
+      some ("ok " ++ ";".intercalate (Gen.Extrap.logWrapperBinding.map fun (p, v) => s!"{p}={v}"))
   | ["c07.argmin", xs] => do
       let xs ← parseList xs
       if xs.isEmpty then some "err ValueError:empty" else some s!"ok {argminIdx xs}"
